@@ -105,6 +105,34 @@ def gen_groups(run, thorough):
                                ["L P=%s D=text:%d:%d G=p%d,e0 O=1048576 A=std" % (pl, dlen, seed, dlen),
                                 "W P=%s D=text:%d:%d E=oneshot" % (pl, dlen, seed),
                                 "W P=%s D=text:%d:%d E=writer B=4096 K=1000" % (pl, dlen, seed)]))
+    # E: input chunking against the ring buffer: more input than the ring (32 KiB at quality 2-3 with lgwin <= 14,
+    #    128 KiB from quality 4 with lgwin <= 16), repetitive data (matches that cross the end of the ring read its
+    #    tail mirror), pieces smaller than, equal to and unaligned with the input block; explicit exact size hint
+    def pieces(total, size):
+        calls, left = [], total
+        while left > size:
+            calls.append("p%d" % size)
+            left -= size
+        calls.append("e%d" % left)
+        return ",".join(calls)
+    for q, lgwin in ((2, 10), (3, 14), (4, 16), (5, 10)) + (((9, 16), (6, 12)) if thorough else ()):
+        for kind in ("period", "text"):
+            dlen = 300000
+            seed = rng.randrange(1, 1 << 30)
+            pl = "1:%d,2:%d,5:%d" % (q, lgwin, dlen)
+            groups.append(("ring-wrap-chunking", "q%d" % q,
+                           ["L P=%s D=%s:%d:%d G=%s O=1048576 A=std" % (pl, kind, dlen, seed, g)
+                            for g in ("e%d" % dlen, pieces(dlen, 1000), pieces(dlen, 4096), pieces(dlen, 7919), pieces(dlen, 65536))]))
+    # F: an explicit size hint that underestimates the input: the encoder must keep it whatever each call shows
+    #    (the hint selects the hasher and, from quality 5, the context-map decision); thresholds 2^20 / 2^22
+    for q in (4, 5) + ((9,) if thorough else ()):
+        for hint in (65536, (1 << 20) - 1):
+            dlen = 1500000
+            seed = rng.randrange(1, 1 << 30)
+            pl = "1:%d,2:22,5:%d" % (q, hint)
+            groups.append(("hint-below-input", "q%d" % q,
+                           ["L P=%s D=text:%d:%d G=%s O=4194304 A=std" % (pl, dlen, seed, g)
+                            for g in ("e%d" % dlen, pieces(dlen, 4096), "p1048576,e%d" % (dlen - 1048576), pieces(dlen, 100000))]))
     return groups
 
 
@@ -184,7 +212,7 @@ def check(run):
     run.cov["distinct_nontrivial"] = len({l for l in lines})
     run.cov["rule"] = ("groups of runs that must emit identical bytes: (A) the same (operation, chunk) calls with output capacities 1, 2, mixed incl. 0, ample, "
                        "take-output in steps of 1/7/all, four allocators/ABIs (std heap, address-shifting wrapper, C ABI default and custom callbacks), a repeated run, "
-                       "dev and release profiles; (B) quality>=2 or catable with explicit size hint: four input chunkings and CompressorWriter / CompressorReader / "
+                       "dev and release profiles; (E) inputs larger than the ring buffer in pieces of 1000 / 4096 / 7919 / 65536 bytes and whole; (F) a size hint below the input length with >= 1 MiB shown in one call or never; (B) quality>=2 or catable with explicit size hint: four input chunkings and CompressorWriter / CompressorReader / "
                        "BrotliCompress with buffer sizes 1..128 KiB and caller chunk sizes 1..100000, one-shot BrotliEncoderCompress where only quality/lgwin/size-hint are set. "
                        "distinct_nontrivial = distinct request lines")
     run.cov["groups"] = per_kind
